@@ -14,8 +14,10 @@
 (*  cfg   = [checkOrigin ("nil" | "true" | "false"), subsNil, subs,        *)
 (*           compress, hto (HandshakeTimeout, ms), errfn, rbuf, wbuf,      *)
 (*           pool, hsize, hwsize]                                          *)
-(*  rh    = responseHeader [nil, hasExt, proto = [present, v],             *)
-(*           extras = sequence of [name, v]]                               *)
+(*  rh    = responseHeader [nil, hasExt, extKey, extV, proto = [present,   *)
+(*           v], extras = sequence of [name, v]]; hasExt: the map has an   *)
+(*           entry extKey (a spelling of Sec-WebSocket-Extensions) with    *)
+(*           the value extV                                                *)
 (*  fault = [op (index of the post-hijack transport operation that fails,  *)
 (*           0 = none), kind, closeErr, hijackErr]                         *)
 (*                                                                         *)
@@ -50,16 +52,31 @@ StatusPrefix == <<72,84,84,80,47,49,46,49,32,49,48,49>>       \* "HTTP/1.1 101"
 
 B(x) == IF x THEN "yes" ELSE "no"
 
+(* Domain decision (DESIGN 0.4): the keys of the responseHeader map are in *)
+(* canonical form, as net/http documents for http.Header and as            *)
+(* Header.Set/Add produce them.  An application extension header under a   *)
+(* non-canonical spelling of the key is outside the domain: the programs   *)
+(* are run (well-formed 101 or refusal, no panic) but neither the refusal  *)
+(* nor the announcement clause is asserted for them.  NonCanonInDomain is  *)
+(* the switch (a cfg may override it with <-).                             *)
+NonCanonInDomain == FALSE
+CanonExtKey == <<83,101,99,45,87,101,98,115,111,99,107,101,116,45,69,120,116,101,110,115,105,111,110,115>>  \* Sec-Websocket-Extensions
+ExtKeyInDomain(p) == p.rh.extKey = CanonExtKey \/ NonCanonInDomain
+
 Conds(p) ==
   [method |-> B(p.req.method = "GET"),
    conn   |-> TokenListContains(p.req.conn, TokUpgrade),
    upg    |-> TokenListContains(p.req.upg, TokWebsocket),
    ver    |-> TokenListContains(p.req.ver, Tok13),
-   key    |-> B(p.req.key.present /\ B64DecLen(p.req.key.v) = 16),
+   \* a key that decodes to 16 octets but is not the canonical encoding (non-zero unused bits in
+   \* the last symbol) may be accepted or refused (RFC 4648 3.5); if it is accepted, the accept
+   \* value is the digest of the key text AS SENT (o.accept, RFC 6455 4.2.2)
+   key    |-> IF p.req.key.present /\ B64DecLen(p.req.key.v) = 16
+              THEN (IF B64Canonical(p.req.key.v) THEN "yes" ELSE "either") ELSE "no",
    origin |-> CASE p.cfg.checkOrigin = "true"  -> "yes"
                 [] p.cfg.checkOrigin = "false" -> "no"
                 [] OTHER -> B(Expected(p.req.host, p.req.origin)),
-   appext |-> B(~p.rh.hasExt)]
+   appext |-> IF ~p.rh.hasExt THEN "yes" ELSE IF ExtKeyInDomain(p) THEN "no" ELSE "either"]
 
 CondNames == {"method", "conn", "upg", "ver", "key", "origin", "appext"}
 Defects(p) == LET c == Conds(p) IN {n \in CondNames : c[n] = "no"}
@@ -159,8 +176,9 @@ ResponseOK(p, o) ==
         IF p.cfg.subsNil THEN ~p.rh.nil /\ p.rh.proto.present   \* the application's own choice
         ELSE pr[1].v \in OfferedProtos(p) /\ pr[1].v \in Rng(p.cfg.subs)
   \* permessage-deflate only if offered and enabled
-  /\ Len(ex) <= 1
-  /\ Len(ex) = 1 => (p.cfg.compress /\ (off.mal \/ HasExt(off, TokPmd)))
+  /\ (p.rh.hasExt /\ ~ExtKeyInDomain(p)) \/
+        (/\ Len(ex) <= 1
+         /\ Len(ex) = 1 => (p.cfg.compress /\ (off.mal \/ HasExt(off, TokPmd))))
   \* no line injected by application supplied values: every other line is
   \* one of the application's headers, at most as often as supplied
   /\ \A i \in 1..Len(r.hdrs) : r.hdrs[i].name \notin Owned =>
@@ -224,9 +242,9 @@ StrictStatus(p) ==
   ELSE IF ~Yes(c.upg) THEN 426
   ELSE IF ~Yes(c.method) THEN 405
   ELSE IF ~Yes(c.ver) THEN 400
-  ELSE IF ~Yes(c.appext) THEN 500
+  ELSE IF p.rh.hasExt /\ p.rh.extKey = CanonExtKey THEN 500      \* only the canonical key is looked up
   ELSE IF ~Yes(c.origin) THEN 403
-  ELSE IF ~Yes(c.key) THEN 400
+  ELSE IF c.key = "no" THEN 400                                  \* the decoder accepts non-canonical spellings
   ELSE IF p.fault.hijackErr THEN 500
   ELSE 0
 
@@ -262,6 +280,7 @@ StrictResponse(p, accept) ==
   \o (IF StrictProto(p) # << >> THEN LProtoPfx \o StrictProto(p) \o CRLF ELSE << >>)
   \o (IF StrictCompress(p) THEN LExt \o CRLF ELSE << >>)
   \o (IF p.rh.nil THEN << >> ELSE ExtraLines(p.rh.extras))
+  \o (IF ~p.rh.nil /\ p.rh.hasExt THEN p.rh.extKey \o ColonSp \o Scrub(p.rh.extV) \o CRLF ELSE << >>)   \* copied verbatim (non-canonical key)
   \o CRLF
 
 (* post-hijack transport operations in source order *)
